@@ -40,9 +40,9 @@ ASSUMPTIONS = [
     "coordinates are compared with the lattice with tolerance 1e-9*step; data values and fills exactly",
 ]
 
-FIRSTS = {"0": 0.0, "half": 0.5, "10/3": 10.0 / 3.0}
-STEPS = {"1": 1.0, "half": 0.5, "0.01": 0.01, "1/3": 1.0 / 3.0}
-DYADIC = {("0", "1"), ("0", "half"), ("half", "1"), ("half", "half")}
+FIRSTS = {"0": 0.0, "half": 0.5, "10/3": 10.0 / 3.0, "36000": 36000.0}
+STEPS = {"1": 1.0, "half": 0.5, "0.01": 0.01, "1/3": 1.0 / 3.0, "quarter": 0.25}
+DYADIC = {("0", "1"), ("0", "half"), ("half", "1"), ("half", "half"), ("36000", "quarter"), ("0", "quarter")}
 FILLS = [-7.0, -9.0, -11.0, -13.0]
 
 
@@ -50,8 +50,13 @@ def inits(tier):
     if tier == "quick":
         firsts, steps, lens, layouts = ["0", "10/3"], ["1", "0.01", "1/3"], [1, 3, 4], ["1d", "2d_last"]
     else:
-        firsts, steps, lens, layouts = list(FIRSTS), list(STEPS), [1, 2, 3, 4, 5], ["1d", "2d_first", "2d_last"]
+        firsts, steps, lens, layouts = ["0", "half", "10/3"], ["1", "half", "0.01", "1/3"], [1, 2, 3, 4, 5], ["1d", "2d_first", "2d_last"]
     out = []
+    # an axis far from the origin (ten hours into a recording, 0.25 s step): coordinates are 1e5 steps large, so any
+    # tolerance that scales with the magnitude of the bound instead of with the step shows up here
+    for n in ([4] if tier == "quick" else [2, 4, 5]):
+        for attr in ([True] if tier == "quick" else [True, False]):
+            out.append({"first": "36000", "step": "quarter", "n": n, "attr": attr, "layout": "1d"})
     for f, s, n, attr, lay in itertools.product(firsts, steps, lens, [True, False], layouts):
         if not attr and n < 2:
             continue
@@ -62,7 +67,8 @@ def inits(tier):
 
 
 def bounds(tier):
-    return {"firsts": sorted(FIRSTS) if tier != "quick" else ["0", "10/3"], "steps": sorted(STEPS) if tier != "quick" else ["1", "0.01", "1/3"],
+    return {"firsts": (["0", "half", "10/3"] if tier != "quick" else ["0", "10/3"]) + ["36000 (with step 0.25 only)"],
+            "steps": ["1", "half", "0.01", "1/3"] if tier != "quick" else ["1", "0.01", "1/3"],
             "lengths": [1, 2, 3, 4, 5] if tier != "quick" else [1, 3, 4],
             "depth": 2 if tier == "quick" else "3 from 1-D axes of length <= 3, 2 from longer axes and 2-D layouts",
             "extend_reach_steps": 2, "widths": "0..len+3", "positions": ["start", "center", "end"], "initial_states": len(inits(tier))}
